@@ -62,12 +62,13 @@ func Load(cfg LoadConfig) (*Interp, []*packages.Package, error) {
 	prog.Build()
 
 	in := &Interp{
-		Prog:     prog,
-		globals:  map[*ssa.Global]*Value{},
-		inited:   map[*ssa.Package]bool{},
-		models:   map[string]*ssa.Function{},
-		repoPkgs: map[*ssa.Package]bool{},
-		Known:    cfg.Known,
+		Prog:       prog,
+		globals:    map[*ssa.Global]*Value{},
+		inited:     map[*ssa.Package]bool{},
+		models:     map[string]*ssa.Function{},
+		repoPkgs:   map[*ssa.Package]bool{},
+		mergeCache: map[*ssa.Function]*mergeInfo{},
+		Known:      cfg.Known,
 	}
 	if in.Known == nil {
 		in.Known = map[string]bool{}
